@@ -141,7 +141,8 @@ class BaseStorage:
             await queue.put((sub_id, None))
 
     async def unsubscribe(self, client_id, sub_id=None):
-        if sub_id:
+        # "" is a subscription id like any other: only None means the whole client
+        if sub_id is not None:
             try:
                 self.clients[client_id][sub_id].cancel()
                 del self.clients[client_id][sub_id]
